@@ -318,7 +318,7 @@ def main():
     checked = nontriv = 0
     for src, (st, val) in [(b, r) for b, r in zip(batches, results)] + [(l, r) for l, r in zip(al, results2)]:
         if st != "ok":
-            run.inconc(f"{str(src)[:80]}: job {st} {str(val)[:200] if val else ''}")
+            run.job_failed(str(src)[:80], st, val)
             continue
         run.add_stats(val["stats"])
         checked += val["checked"]
